@@ -144,6 +144,7 @@ pub fn run_with(path: PathBuf, src: &str, opts: &Opts) -> Outcome {
     unsafe { std::mem::ManuallyDrop::drop(&mut vm) };
     (res, ex, limit_hit)
   }));
+  let limit_hit_any = vm_verif::limit_hit();
   allocator_verif::set_schedule(Schedule::Default, 1);
   allocator_verif::set_force_full(None);
   verif_cache::set_caches_off(false);
@@ -166,7 +167,8 @@ pub fn run_with(path: PathBuf, src: &str, opts: &Opts) -> Outcome {
       } else {
         "?".to_string()
       };
-      if msg.contains("verif step limit exceeded") {
+      if msg.contains("verif step limit exceeded") || limit_hit_any {
+        // the step limit ended a nested interpreter loop (a native callback) without an error set
         "STEPLIMIT".to_string()
       } else {
         format!("PANIC:{}", msg.replace('\n', " "))
